@@ -303,6 +303,8 @@
 
 #![cfg_attr(feature = "cargo-clippy", allow(clippy::inline_always))]
 
+#[cfg(multiqueue2_verif)]
+pub mod verif_hooks;
 mod alloc;
 mod atomicsignal;
 mod broadcast;
@@ -325,3 +327,39 @@ pub use crate::mpmc::{
     mpmc_fut_queue, mpmc_queue, mpmc_queue_with, MPMCFutReceiver, MPMCFutSender,
     MPMCFutUniReceiver, MPMCReceiver, MPMCSender, MPMCUniReceiver,
 };
+
+/// Pure functions re-exported for the verification harness.
+#[cfg(multiqueue2_verif)]
+pub mod verif_api {
+    pub use crate::countedindex::verif_api::*;
+    pub use crate::countedindex::{get_valid_wrap, is_tagged, past, rm_tag, INITIAL_QUEUE_FLAG};
+
+    pub fn wait_check(seq: usize, at: usize, wc: usize) -> bool {
+        let at = crate::verif_hooks::AtomicUsize::new(at);
+        let wc = crate::verif_hooks::AtomicUsize::new(wc);
+        crate::wait::check(seq, &at, &wc)
+    }
+
+    /// (has_action, get_epoch, get_reader) of a loaded signal word after applying `op` to `flags`
+    /// (0 none, 1 set_epoch, 2 clear_epoch, 3 set_reader), plus the new word and the op's result.
+    pub fn signal_op(flags: usize, op: u8) -> (bool, bool, bool, usize, bool) {
+        use std::sync::atomic::Ordering::SeqCst;
+        let s = crate::atomicsignal::AtomicSignal::new();
+        // seed the word
+        if flags & 1 != 0 {
+            s.set_epoch(SeqCst);
+        }
+        if flags & 2 != 0 {
+            s.set_reader(SeqCst);
+        }
+        let r = match op {
+            1 => s.set_epoch(SeqCst),
+            2 => s.clear_epoch(SeqCst),
+            3 => s.set_reader(SeqCst),
+            _ => false,
+        };
+        let l = s.load(SeqCst);
+        let w = (l.get_epoch() as usize) | ((l.get_reader() as usize) << 1);
+        (l.has_action(), l.get_epoch(), l.get_reader(), w, r)
+    }
+}
